@@ -79,18 +79,47 @@ def discharge(ob, timeout_ms):
         goal = z3.BoolVal(goal)
     goal = pointwise(goal)
 
-    def z3_try(tmo, opts=None):
+    from . import recfuns
+
+    def z3_try(tmo, opts=None, mode='full', depth=0):
         s = z3.Solver()
         s.set('timeout', int(tmo))
         for k, v in (opts or {}).items():
             s.set(k, v)
-        s.add(*ob.hyps)
-        s.add(z3.Not(goal))
+        neg = z3.Not(goal)
+        if mode == 'full':
+            s.add(*ob.hyps)
+            s.add(neg)
+        else:
+            fs = list(ob.hyps) + [neg]
+            fs = fs + recfuns.fuel(fs, depth)
+            for f in fs:
+                s.add(recfuns.abstract(f))
         r = s.check()
         return r, s
 
+    ladder = []
+    r = z3.unknown
+    s = None
+    # 1-2: abstraction with bounded unfolding (unsat there is unsat; sat there proves nothing)
+    for depth, tmo in ((1, 1500), (3, 4000)):
+        ra, sa = z3_try(min(timeout_ms, tmo), mode='abs', depth=depth)
+        ladder.append(f'abs{depth}:{ra}')
+        if ra == z3.unsat:
+            ob.status, ob.backend = 'discharged', f'z3(fuel={depth})'
+            ob.time = time.time() - t0
+            ob.ladder = ladder
+            return ob
+        if ra == z3.unknown:
+            c = run_cvc5(sa, min(timeout_ms, 5000))
+            ladder.append(f'cvc5-abs{depth}:{c}')
+            if c == 'unsat':
+                ob.status, ob.backend = 'discharged', f'cvc5(fuel={depth})'
+                ob.time = time.time() - t0
+                ob.ladder = ladder
+                return ob
     r, s = z3_try(min(timeout_ms, 2500))
-    ladder = ['z3']
+    ladder.append(f'z3:{r}')
     if r == z3.unknown:
         c = run_cvc5(s, min(timeout_ms, 20000))
         ladder.append(f'cvc5:{c}')
@@ -100,7 +129,7 @@ def discharge(ob, timeout_ms):
             ob.ladder = ladder
             return ob
         r, s = z3_try(timeout_ms, {'smt.random_seed': 7})
-        ladder.append('z3-long')
+        ladder.append(f'z3-long:{r}')
     if r == z3.unsat:
         ob.status, ob.backend = 'discharged', 'z3'
     elif r == z3.sat:
